@@ -147,13 +147,13 @@ def check_c16(tier, replay):
         if replay:
             raise MachineryError("replay files are not produced for C16 (the violating trace line and its seed are in the description)")
         # 1. MC: convergence for mismatched pairs (RingN scaled to 10), stability for matching pairs under all fault patterns
-        pairs = [(2, 1, 1, 1, 0), (2, 1, 1, 1, 42), (1, 1, 2, 1, 0), (1, 2, 2, 1, 0), (2, 2, 1, 1, 40)]
+        pairs = [(2, 1, 1, 1, 0), (2, 1, 1, 1, 42), (1, 1, 2, 1, 0)]
         if th:
-            pairs += [(3, 1, 1, 1, 0), (1, 1, 3, 2, 0), (2, 1, 2, 2, 36), (1, 3, 2, 1, 44), (3, 2, 2, 1, 0)]
+            pairs += [(1, 2, 2, 1, 0), (2, 2, 1, 1, 40), (3, 1, 1, 1, 0), (1, 1, 3, 2, 0), (2, 1, 2, 2, 36), (1, 3, 2, 1, 44), (3, 2, 2, 1, 0)]
         for (ed, ep, dd, dp, start) in pairs:
             n = ed + ep
             need = 10 + 2 * n
-            groups = (need + 2 * n) // ed + 3
+            groups = (need + 2 * n) // n + 3
             run_fec_mc(v, scr, "mc_c16_%d_%d_%d_%d_%d.cfg" % (ed, ep, dd, dp, start),
                        fec_cfg(ed, ep, dd, dp, start, ["Converges", "Bounded"], w=64 if start == 0 else 128, ringn=10, groups=groups, drop=1, dup=1,
                                air=n, skip=False, calm=need))
